@@ -2,7 +2,7 @@
    specification - complete refinements, no hypotheses beyond well-formed registers. *)
 From Coq Require Import ZArith Bool List Lia.
 From AxV Require Import Bits Outcome Codes Iced State Rt Mem Trace BitsP RegFile RegsP ISA CodeSem FlagsP CfP MovP AluP Alu32P MovxP.
-From AxG Require Import Flags Regs Operand Helpers I_cdqe I_cqo I_cdq I_cld I_nop I_endbr64 I_cwd.
+From AxG Require Import Flags Regs Operand Helpers I_cdqe I_cqo I_cdq I_cld I_nop I_endbr64 I_cwd I_cpuid.
 Local Open Scope Z_scope.
 Ltac Zify.zify_post_hook ::= Z.div_mod_to_equations.
 
@@ -98,5 +98,19 @@ Section Simple.
     destruct (Z.testbit (rf_read (regs s) AX) 15).
     - rewrite (bind_ok _ _ _ _ _ (reg_write_16_ok c DX 65535 s Hwf eq_refl R1)). reflexivity.
     - rewrite (bind_ok _ _ _ _ _ (reg_write_16_ok c DX 0 s Hwf eq_refl R0)). reflexivity.
+  Qed.
+
+  (* CPUID: the emulator answers every leaf with zeros in EAX, EBX, ECX, EDX (zero-extended into the 64-bit
+     registers) and touches nothing else; the architecture leaves the values to the processor model *)
+  Theorem cpuid_exact : i_code i = C_Cpuid ->
+    instr_cpuid c i s = (Ok tt, write_reg (write_reg (write_reg (write_reg s EAX 0) EBX 0) ECX 0) EDX 0).
+  Proof.
+    intros Ec. unfold instr_cpuid. rewrite Ec. rewrite (bind_ok _ _ _ _ _ (dbg_code_ok c s _ eq_refl)).
+    assert (R0 : 0 <= 0 < 2 ^ 32) by (change (2 ^ 32) with 4294967296; lia).
+    rewrite (bind_ok _ _ _ _ _ (reg_write_32_ok c EAX 0 s eq_refl R0)).
+    rewrite (bind_ok _ _ _ _ _ (reg_write_32_ok c EBX 0 _ eq_refl R0)).
+    rewrite (bind_ok _ _ _ _ _ (reg_write_32_ok c ECX 0 _ eq_refl R0)).
+    rewrite (bind_ok _ _ _ _ _ (reg_write_32_ok c EDX 0 _ eq_refl R0)).
+    reflexivity.
   Qed.
 End Simple.
